@@ -7,6 +7,7 @@ Open Scope N_scope.
 Inductive case :=
 | CComp (x comp dec : bytes)     (* comp = common.Compress x, dec = common.Decompress comp *)
 | CCompRT (x comp : bytes)       (* the same when dec was observed to be equal to x (printed once) *)
+| CSeq (l : list (bytes * bytes))  (* several Compress calls in a row, results held: (x, comp) *)
 | CDecomp (stream out : bytes).  (* out = common.Decompress stream, any stream *)
 
 Definition check (c : case) : bool :=
@@ -15,6 +16,7 @@ Definition check (c : case) : bool :=
       bytes_eqb (compress x) comp && bytes_eqb (decompress_lenient comp) dec
   | CCompRT x comp =>
       bytes_eqb (compress x) comp && bytes_eqb (decompress_lenient comp) x
+  | CSeq l => forallb (fun p => bytes_eqb (compress (fst p)) (snd p)) l
   | CDecomp stream out =>
       bytes_eqb (decompress_lenient stream) out
   end.
